@@ -1,7 +1,7 @@
 META = {
     "level": "model_checking",
     "technique": "symbolic (Dolev-Yao) TLA+ model of the key exchange with a one-field man in the middle and re-exchanges (Kex.tla) model-checked by TLC; every scenario TLC emits replayed as real handshakes between two paramiko Transports for kex methods x host-key algorithms; the recorded K/H/session id/signature facts of every exchange judged by TLC with the trace spec",
-    "text": "TLC checks on the symbolic model that a finished exchange implies equal K and H and a signature over H verifying under the shown key, that the session id is the first H for ever (invariant and action property), and that an altered reply field in ANY exchange makes the client abort and that after every exchange the stored host key is the server's (five seeded design errors must be caught, among them 'verify only when the host key blob is new'); TLC emits every (altered field, number of re-exchanges) scenario; each is run on real client/server Transports over an in-memory link whose plaintext man in the middle (first exchange) or the harness-owned server end (re-exchanges 1..3) changes the value of exactly one field of the server's reply (host key swapped for another valid key / one bit, f or Q_S changed / replaced by another valid value, signature bits / signature over other data / signature by an unrelated key, signature algorithm name, gex p, gex g); both peers log K, H, session_id at _set_K_H, the client logs _verify_key / NEWKEYS; the signature is re-verified with the cryptography package directly and H is rebuilt from the wire; TLC judges every exchange of every session with Kex_Trace",
+    "text": "TLC checks on the symbolic model that a finished exchange implies equal K and H and a signature over H verifying under the shown key, that the session id is the first H for ever, whatever hash family (digest size) a later exchange negotiates (invariant and action property), and that an altered reply field in ANY exchange makes the client abort and that after every exchange the stored host key is the server's (six seeded design errors must be caught, among them 'verify only when the host key blob is new' and 'session id re-latched when the digest size changes'); TLC emits every (altered field, number of re-exchanges) scenario; each is run on real client/server Transports over an in-memory link whose plaintext man in the middle (first exchange) or the harness-owned server end (re-exchanges 1..3) changes the value of exactly one field of the server's reply (host key swapped for another valid key / one bit, f or Q_S changed / replaced by another valid value, signature bits / signature over other data / signature by an unrelated key, signature algorithm name, gex p, gex g); both peers log K, H, session_id at _set_K_H, the client logs _verify_key / NEWKEYS; the signature is re-verified with the cryptography package directly and H is rebuilt from the wire; TLC judges every exchange of every session with Kex_Trace",
     "note": "trusted: TLC, the in-memory link and its packet parser, the cryptography package for the independent signature check; re-exchange faults are injected at the server end, not on the (encrypted) wire; alterations change a field's value, never only its encoding; gss-* kex is not exercised",
 }
 import random
@@ -15,11 +15,14 @@ FIELD_ALTS = {"none": ["none"], "hostkey": ["hostkey_swap", "hostkey_bits"], "pu
               "sig": ["sig_bits", "sig_other_data", "sig_other_key"], "sigalg": ["sig_alg"], "group": ["gex_p", "gex_g"]}
 MUTS = [("skip_verify", "Agreement|AlteredAborts"), ("sid_overwrite", "SessionIdFixed"),
         ("ignore_sig_alg", "AlteredAborts"), ("verify_before_hash_binding", "Agreement|AlteredAborts"),
-        ("verify_only_new_key", "Agreement|AlteredAborts|HostKeyAuthentic")]
+        ("verify_only_new_key", "Agreement|AlteredAborts|HostKeyAuthentic"), ("sid_by_digest_size", "SessionIdFixed")]
+
+
+METHODS = {"sha1", "sha256", "sha384", "sha512"}      # hash families (digest sizes 20, 32, 48, 64) of the kex methods
 
 
 def consts(gex, maxrekey, mut="none"):
-    return {"MaxRekey": maxrekey, "Fields": ALLF if gex else ALLF - {"group"}, "Gex": gex, "Mut": mut}
+    return {"MaxRekey": maxrekey, "Fields": ALLF if gex else ALLF - {"group"}, "Gex": gex, "Methods": METHODS, "Mut": mut}
 
 
 def run(c):
@@ -29,7 +32,7 @@ def run(c):
     stage = {}
     maxrekey = 2 if q else 3
     # ---- M: the symbolic protocol with the one-field attacker
-    cases = {}
+    cases, seqs = {}, {}
     for gex in ((True,) if q else (False, True)):
         r = c.mc_holds("Kex", cfg_text(constants=consts(gex, maxrekey), invariants=INVS + ["Emit"],
                                        properties=["SidNeverChanges"]),
@@ -40,6 +43,8 @@ def run(c):
         if not any(x[3] == "aborted" and x[2] == maxrekey for x in got):
             raise Machinery("Kex model (gex=%s) never alters the last re-exchange" % gex)
         cases[gex] = sorted({(x[1], x[2], x[3]) for x in got})
+        for x in got:                 # the method (hash family) sequences TLC explored for each scenario
+            seqs.setdefault((x[1], x[2]), set()).add(tuple(x[4]))
     if q:       # the fixed-group model is the group-exchange model without the group field (checked in the thorough tier)
         cases[False] = [x for x in cases[True] if x[0] != "group"]
     muts = MUTS + [("sid_overwrite", "SidNeverChanges|<temporal>")]
@@ -92,9 +97,33 @@ def run(c):
                         # the alterations per (kex, algorithm) pair
                         if n == 0 or (n == 1 + (ki + ai + j) % maxrekey and (ki + ai + j // maxrekey) % 2 == 0):
                             plan.append((kex, alg, alt, n, out))
+    # every exchange of a session negotiates a kex method of the hash family TLC chose for it: the first one is the
+    # planned method, re-exchanges switch to methods of the emitted families (digest sizes change across exchanges)
+    by_hash = {}
+    for k in drv.KEX_NAMES:
+        by_hash.setdefault(drv.KEX_HASH[k], []).append(k)
+    inv_alt = {a: f for f, al in FIELD_ALTS.items() for a in al}
+
+    def changes(m):
+        return sum(1 for a, b in zip(m, m[1:]) if a != b)
+    turn = {}
     records, meta = [], []
+    first_varied = True
     for kex, alg, alt, rk, out in plan:
-        rec = drv.run_kex(kex, alg, alt, rekeys=rk, rnd=rnd, at=0 if alt == "none" else rk)
+        kexes = [kex]
+        if rk:
+            fld = inv_alt[alt]
+            cand = sorted((m for m in seqs[(fld, rk)] if m[0] == drv.KEX_HASH[kex]), key=lambda m: (-changes(m), m))
+            if not cand or len(cand[0]) != rk + 1:
+                raise Machinery("no method sequence emitted for %s at %d starting with %s" % (fld, rk, drv.KEX_HASH[kex]))
+            t = turn[(fld, rk)] = turn.get((fld, rk), -1) + 1
+            m = cand[0] if (alt == "none" and first_varied) else cand[(t * 5 + c.seed) % len(cand)]
+            first_varied = first_varied and alt != "none"
+            for i, h in enumerate(m[1:]):
+                kexes.append(by_hash[h][(t + i + c.seed) % len(by_hash[h])])
+        rec = drv.run_kex(kexes, alg, alt, rekeys=rk, rnd=rnd, at=0 if alt == "none" else rk)
+        if [x["engine"] for x in rec["exchanges"]] != kexes[:len(rec["exchanges"])]:
+            raise Machinery("exchanges used %r, planned %r" % ([x["engine"] for x in rec["exchanges"]], kexes))
         if alt == "none":
             if not (rec["client_ok"] and rec["server_ok"]) or rec["rekeys"] != rk:
                 raise Machinery("honest handshake %s/%s did not complete (%d of %d re-exchanges): %r" %
@@ -107,12 +136,13 @@ def run(c):
             c.conformance("C_outcome_differs_from_model:%s" % alt, "%s/%s %s: client %s, model %s" % (kex, alg, alt, got, out))
         records.append({k: v for k, v in rec.items() if k != "errors"})
         meta.append(rec)
-        c.case(key="%s|%s|%s|%d" % (kex, alg, alt, rk),
-               sample={"kex": kex, "hostkey_alg": alg, "altered": alt, "exchange_index_or_re_exchanges": rk, "client": got,
+        c.case(key="%s|%s|%s|%d" % (">".join(kexes), alg, alt, rk),
+               sample={"kex_per_exchange": kexes, "hostkey_alg": alg, "altered": alt, "exchange_index_or_re_exchanges": rk, "client": got,
                        "client_error": rec["errors"].get("client", "")} if len(c.samples) < 5 and (alt != "none" or rk) else None)
     stage["handshakes_s"] = round(time.time() - t0, 1)
     c.extra["exchanges"] = sum(len(r["exchanges"]) for r in records)
-    c.extra["coverage_kex"] = sorted({r["kex"] for r in records})
+    c.extra["coverage_kex"] = sorted({k for r in records for k in r["kexes"]})
+    c.extra["sessions_with_digest_size_change"] = sum(1 for r in records if len({x["meth"] for x in r["exchanges"]}) > 1)
     c.extra["coverage_hostkey_algs"] = sorted({r["hostalg"] for r in records})
     c.extra["coverage_alterations"] = sorted({r["alter"] for r in records})
 
@@ -137,7 +167,7 @@ def run(c):
     c.rule = ("scenarios = (altered reply field | none, index of the altered exchange | number of re-exchanges) emitted by TLC from Kex.tla; each run as a real session: "
               + ("every kex method once, every host-key algorithm; first exchange: every alteration once per kex family; every re-exchange index: every alteration once" if q else
                  "every kex method x host-key algorithm: one honest session (0..%d re-exchanges), every alteration in the first exchange, half of the alterations in one re-exchange each (index and half rotate over the pairs)" % maxrekey)
-              + "; distinct = (kex, host-key algorithm, alteration, exchange index)")
+              + "; re-exchanges switch to kex methods of the hash families (sha1/256/384/512) TLC chose for them, by changing both peers' security options before renegotiate_keys(); distinct = (kex method per exchange, host-key algorithm, alteration, exchange index)")
     c.assumptions = ["alterations of a re-exchange are made at the server end (the harness owns the server; on the wire they are encrypted and MACed: C02); the gex group is altered in the first exchange only",
                      "group exchange uses published safe primes (RFC 2409/3526) installed as the server's modulus pack",
                      "an alteration changes the value of one field as delivered to the client; encodings are left canonical"]
